@@ -39,6 +39,18 @@ class CustomSerde:
         return json.loads(value)
 
 
+class Flag0Serde:
+    """a serializer that does not use the flags at all (always 0) although it transforms every value"""
+
+    def serialize(self, key, value):
+        import pickle
+        return pickle.dumps(value, protocol=2), 0
+
+    def deserialize(self, key, value, flags):
+        import pickle
+        return pickle.loads(value)
+
+
 def rand_obj(rnd, depth=0):
     t = rnd.randrange(10 if depth < 3 else 6)
     if t == 0:
@@ -119,7 +131,7 @@ def run_point(g, n, rnd, force_seg=None):
     from pymemcache import serde as S
     prefix = b"pfx:"
     unicode = g["k"] == "utf8"
-    sd = {"none": None, "custom": CustomSerde(), "compressed": S.CompressedSerde(min_compress_len=rnd.choice([0, 1, 10, 400]))}
+    sd = {"none": None, "custom": CustomSerde() if (n % 2 or g["v"] == "big") else Flag0Serde(), "compressed": S.CompressedSerde(min_compress_len=rnd.choice([0, 1, 10, 400]))}
     sd.update({"p%d" % i: S.PickleSerde(pickle_version=i) for i in range(6)})
     serde = sd[g["serde"]]
     net = fakesock.FakeNet()
